@@ -168,7 +168,7 @@ _p("C13", "proof",
    "Proved (Props/C13.v) for every tracker state and change list: an accepted Simple / EnterJoint / LeaveJoint yields a configuration satisfying the "
    "invariants of checkInvariants (as a proposition: members have progress, staged learners are outgoing voters and not learners, learners are "
    "disjoint from both voter sets, non-joint implies no staging and no auto-leave), keeps an incoming voter, Simple changes the voter set by at "
-   "most one; a rejected change yields no configuration; whatever Restore accepts (C13_restore_invariants_partial) satisfies the same invariants, keeps a voter, and is joint with the ConfState's AutoLeave exactly when the ConfState names outgoing voters, and its outgoing voter set is exactly the ConfState's VotersOutgoing (C13_restore_outgoing_roundtrip), and its incoming voter set is exactly the ConfState's Voters, joint or not (C13_restore_voters_roundtrip, C13_restore_voters_joint_roundtrip), and its learner sets are the ConfState's: Learners for a non-joint ConfState (C13_restore_learners_roundtrip), for a joint one the named ids become learners when they are not outgoing voters and staged learners when they are (C13_restore_learners_joint_roundtrip) - so the whole set-level round trip of an accepted Restore is a theorem; that Restore accepts the ConfState of every reachable configuration is decided by the stream, not by a theorem. The confchange stream runs exhaustive short and random long sequences of Simple / "
+   "most one; a rejected change yields no configuration; only members have a progress record (C13_only_members_have_progress: an invariant of the Changer from the empty tracker on, which checkInvariants itself does not test); whatever Restore accepts (C13_restore_invariants_partial) satisfies the same invariants, keeps a voter, and is joint with the ConfState's AutoLeave exactly when the ConfState names outgoing voters, and its outgoing voter set is exactly the ConfState's VotersOutgoing (C13_restore_outgoing_roundtrip), and its incoming voter set is exactly the ConfState's Voters, joint or not (C13_restore_voters_roundtrip, C13_restore_voters_joint_roundtrip), and its learner sets are the ConfState's: Learners for a non-joint ConfState (C13_restore_learners_roundtrip), for a joint one the named ids become learners when they are not outgoing voters and staged learners when they are (C13_restore_learners_joint_roundtrip) - so the whole set-level round trip of an accepted Restore is a theorem; that Restore accepts the ConfState of every reachable configuration is decided by the stream, not by a theorem. The confchange stream runs exhaustive short and random long sequences of Simple / "
    "EnterJoint / LeaveJoint / Restore (unknown types, zero ids, duplicates, demotions in joint state, odd ConfStates) on confchange.Changer of "
    "/repo and on the model, compares every result, and evaluates the property itself on every accepted result of the implementation "
    "(disjointness, staging, exactly the members have progress, an incoming voter remains, Simple alters at most one voter, input untouched, "
